@@ -1,7 +1,43 @@
-(* Observation commands: filled in by the corresponding property work; definitions only. *)
+(* Observation commands of the single-specifier domain (C03, C04, C12-specifier).  Definitions only. *)
 From Coq Require Import List NArith Bool String.
 Import ListNotations.
-Require Import Show.
+Require Import VParse VMeaning SpecModel SpecParse SpecSound SpecContains SpecSem Show.
 Open Scope N_scope.
 
-Definition run_spec (cmd : list N) (args : list (list N)) : option (list N) := None.
+Definition show_outcome (o : outcome) : list N :=
+  match o with Ans true => asc "T" | Ans false => asc "F" | BadItem => asc "EV" | Escaped => asc "X" end.
+Definition parse_tri (s : list N) : option bool := if seqb s (asc "T") then Some true else if seqb s (asc "F") then Some false else None.
+
+Definition obs_spec_parse (s : list N) : list N :=
+  match Specifier s with
+  | None => asc "E"
+  | Some sp => fields [asc "OK"; op_txt (sp_op sp); sp_text sp; spec_str sp; show_bool (auto_pre sp)]
+  end.
+Definition obs_spec_contains (s arg item : list N) : list N :=
+  match Specifier s with
+  | None => asc "ES"
+  | Some sp => show_outcome (contains sp None (parse_tri arg) item)
+  end.
+Definition obs_spec_sem (s item : list N) : list N :=
+  match Specifier s with
+  | None => asc "ES"
+  | Some sp => match contains_spec sp item with Some o => show_outcome o | None => asc "?" end
+  end.
+
+Definition oper_eqb (a b : oper) : bool := seqb (op_txt a) (op_txt b).
+Definition key_eqb (k k' : oper * list N) : bool := oper_eqb (fst k) (fst k') && seqb (snd k) (snd k').
+(* Specifier.__eq__ / __hash__: both through _canonical_spec *)
+Definition obs_spec_eq (a b : list N) : list N :=
+  match Specifier a, Specifier b with
+  | Some x, Some y => show_bool (key_eqb (spec_key x) (spec_key y))
+  | _, _ => asc "E"
+  end.
+Definition obs_spec_key (a : list N) : list N :=
+  match Specifier a with Some x => op_txt (fst (spec_key x)) ++ snd (spec_key x) | None => asc "E" end.
+
+Definition run_spec (cmd : list N) (args : list (list N)) : option (list N) :=
+  if seqb cmd (asc "sp.parse") then Some (obs_spec_parse (nth_str 0 args))
+  else if seqb cmd (asc "sp.contains") then Some (obs_spec_contains (nth_str 0 args) (nth_str 1 args) (nth_str 2 args))
+  else if seqb cmd (asc "sp.eq") then Some (obs_spec_eq (nth_str 0 args) (nth_str 1 args))
+  else if seqb cmd (asc "sp.sem") then Some (obs_spec_sem (nth_str 0 args) (nth_str 1 args))
+  else None.
